@@ -429,7 +429,10 @@ def translate_functions(repo) -> str:
         raise TranslateError("node_visitor.py: _lines is not `return _split_lines(self.contents)`")
     sl = [n for n in nv.body if isinstance(n, ast.FunctionDef) and n.name == "_split_lines"]
     sl_body = [ast.unparse(x) for x in sl[0].body if not (isinstance(x, ast.Expr) and isinstance(x.value, ast.Constant))] if len(sl) == 1 else None
-    if sl_body != ["lines = re.split('\\r\\n|\\r|\\n', contents)", "if lines and lines[-1] == '':\n    lines.pop()", "return [line + '\\n' for line in lines]"]:
+    ref = ast.parse('lines = re.split(r"\\r\\n|\\r|\\n", contents)\nif lines and lines[-1] == "":\n    lines.pop()\nreturn_ = [line + "\\n" for line in lines]\n')
+    want_sl = [ast.unparse(x) for x in ref.body]
+    want_sl[2] = want_sl[2].replace("return_ = ", "return ")
+    if sl_body != want_sl:
         raise TranslateError(f"node_visitor.py: _split_lines changed: {sl_body}")
     out += ["(* _split_lines: a line ends at \\r\\n, \\r or \\n only *)",
             "Definition line_terminators : list (list N) := [[13%N; 10%N]; [13%N]; [10%N]].", ""]
